@@ -113,6 +113,9 @@ def is_number(x):
         and isinstance(x.item(), (int, float, bool))
 
 
+_INF = float("inf")
+
+
 class Poly:
     """Commutative Laurent polynomial.  terms: {monomial: Fraction}, monomial = tuple of
     (atom, exponent) sorted by repr(atom)."""
@@ -218,6 +221,8 @@ class Poly:
         return None
 
     def __add__(self, o):
+        if isinstance(o, float) and o in (_INF, -_INF):
+            return o                      # finite symbolic value + infinity
         o2 = self._coerce(o)
         if o2 is None:
             return NotImplemented
@@ -237,12 +242,16 @@ class Poly:
         return self.__add__(o)
 
     def __sub__(self, o):
+        if isinstance(o, float) and o in (_INF, -_INF):
+            return -o
         o2 = self._coerce(o)
         if o2 is None:
             return NotImplemented
         return self + (-o2)
 
     def __rsub__(self, o):
+        if isinstance(o, float) and o in (_INF, -_INF):
+            return o
         o2 = self._coerce(o)
         if o2 is None:
             return NotImplemented
@@ -740,6 +749,9 @@ class SC:
         o = SC.lift(o)
         if o is None:
             return NotImplemented
+        if o.im.is_zero():
+            d = o.re.inverse()
+            return SC(self.re * d, self.im * d)
         d = o.norm2().inverse()
         n = self * o.conjugate()
         return SC(n.re * d, n.im * d)
@@ -910,6 +922,9 @@ class SQ:
         o2 = SQ.lift(o)
         if o2 is None:
             return NotImplemented
+        if all(c.is_zero() for c in o2.c[1:]):
+            d = o2.c[0].inverse()
+            return SQ(*[a * d for a in self.c])
         return self * o2.inverse()          # numpy-quaternion: a / b = a * b^-1
 
     def __rtruediv__(self, o):
